@@ -16,7 +16,8 @@
 (* document, in HTML and in XML mode.                                        *)
 EXTENDS Common, Json
 
-CONSTANTS MaxSeg, MaxDepth, SegIdx
+CONSTANTS MaxSeg, MaxDepth, SegIdx,
+          XmlModes       \* subset of BOOLEAN: which parser modes are generated
 
 NONE == "<none>"
 A(n, noff, v, voff) == [n |-> n, noff |-> noff, v |-> v, voff |-> voff]
@@ -41,7 +42,10 @@ Segs == <<
   [Seg("special", "style", "<style>a>b{}</style>", <<>>) EXCEPT !.body = 7],
   [Seg("special", "script", "<script>if(a<b)\"</p>\"</script>", <<>>) EXCEPT !.body = 8],
   Seg("text", "", "t ", <<>>),
-  Seg("text", "", "x > y", <<>>) >>
+  Seg("text", "", "x > y", <<>>),
+  Seg("open", "a", "<a class=\"x  y\">", <<A("class", 3, "\"x  y\"", 9)>>),
+  Seg("open", "p", "<p class=z id='i'>", <<A("class", 3, "z", 9), A("id", 11, "'i'", 14)>>),
+  Seg("self", "b", "<b class=\"\" d={e}/>", <<A("class", 3, "\"\"", 9), A("d", 12, "{e}", 14)>>) >>
 
 VARIABLES doc, xml, elems, evs, open, nseg
 vars == <<doc, xml, elems, evs, open, nseg>>
@@ -49,7 +53,7 @@ vars == <<doc, xml, elems, evs, open, nseg>>
    evs[j]   = [n, ty (1 open, 2 close, 3 self-close as reported by scan), s, e]
    open     = stack of element indices *)
 
-Init == doc = "" /\ xml \in BOOLEAN /\ elems = <<>> /\ evs = <<>> /\ open = <<>> /\ nseg = 0
+Init == doc = "" /\ xml \in XmlModes /\ elems = <<>> /\ evs = <<>> /\ open = <<>> /\ nseg = 0
 
 Off == Len(doc)
 AbsAttrs(attrs) == [k \in 1..Len(attrs) |-> [attrs[k] EXCEPT !.noff = @ + Off, !.voff = IF attrs[k].v = NONE THEN 0 ELSE @ + Off]]
@@ -163,6 +167,46 @@ TruthInv == \A i \in 1..Len(elems) : /\ SubSeq(doc, elems[i].os + 1, elems[i].os
                                      /\ \A k \in 1..Len(elems[i].attrs) : LET a == elems[i].attrs[k] IN
                                            /\ SubSeq(doc, a.noff + 1, a.noff + Len(a.n)) = a.n
                                            /\ (a.v # NONE => SubSeq(doc, a.voff + 1, a.voff + Len(a.v)) = a.v)
+
+(* ------------------------------------------- editor action helpers (C17) *)
+(* tags = open / self-closing tags in document order (elems is in that order) *)
+Pushr(acc, r) == IF r[1] = r[2] \/ (acc # <<>> /\ Last(acc) = r) THEN acc ELSE Append(acc, r)
+ValueRange(a) == LET c == SubSeq(a.v, 1, 1) z == SubSeq(a.v, Len(a.v), Len(a.v)) IN
+                 IF c = "\"" \/ c = "'" THEN <<a.voff + 1, a.voff + Len(a.v) - (IF z = c THEN 1 ELSE 0)>>
+                 ELSE IF c = "{" /\ z = "}" THEN <<a.voff + 1, a.voff + Len(a.v) - 1>>
+                 ELSE <<a.voff, a.voff + Len(a.v)>>
+RECURSIVE Words(_, _, _, _)
+Words(a, b, start, acc) ==            \* white-space separated words of doc[a..b), start = -1 outside a word
+    IF a >= b THEN (IF start = -1 THEN acc ELSE Append(acc, <<start, b>>))
+    ELSE IF IsSpace(SubSeq(doc, a + 1, a + 1)) THEN Words(a + 1, b, -1, IF start = -1 THEN acc ELSE Append(acc, <<start, a>>))
+    ELSE Words(a + 1, b, IF start = -1 THEN a ELSE start, acc)
+RECURSIVE PushAll(_, _)
+PushAll(acc, rs) == IF rs = <<>> THEN acc ELSE PushAll(Pushr(acc, Head(rs)), Tail(rs))
+RECURSIVE AttrRanges(_, _, _)
+AttrRanges(attrs, k, acc) ==
+    IF k > Len(attrs) THEN acc
+    ELSE LET a == attrs[k] IN
+         IF a.v = NONE THEN AttrRanges(attrs, k + 1, Pushr(acc, <<a.noff, a.noff + Len(a.n)>>))
+         ELSE LET acc1 == Pushr(acc, <<a.noff, a.voff + Len(a.v)>>)
+                  vr == ValueRange(a)
+                  acc2 == IF vr[1] # vr[2] THEN Pushr(acc1, vr) ELSE acc1
+                  acc3 == IF vr[1] # vr[2] /\ a.n = "class" THEN PushAll(acc2, Words(vr[1], vr[2], -1, <<>>)) ELSE acc2
+              IN AttrRanges(attrs, k + 1, acc3)
+SelRanges(i) == AttrRanges(elems[i].attrs, 1, << <<elems[i].os + 1, elems[i].os + 1 + Len(elems[i].name)>> >>)
+OpenTagAt(pos) == LET S == {i \in 1..Len(elems) : elems[i].os < pos /\ pos < elems[i].oe} IN IF S = {} THEN 0 ELSE CHOOSE i \in S : TRUE
+InClosingTag(pos) == \E i \in 1..Len(elems) : elems[i].ce # -1 /\ elems[i].cs < pos /\ pos < elems[i].ce
+NextTag(pos) == LET S == {i \in 1..Len(elems) : elems[i].oe > pos} IN IF S = {} THEN 0 ELSE CHOOSE i \in S : \A j \in S : i <= j
+PrevTag(pos) == LET S == {i \in 1..Len(elems) : elems[i].os < pos} IN IF S = {} THEN 0 ELSE CHOOSE i \in S : \A j \in S : j <= i
+\* every selection range lies inside its tag, is not empty and differs from its predecessor
+SelInv == \A i \in 1..Len(elems) : LET rs == SelRanges(i) IN
+             \A k \in 1..Len(rs) : /\ elems[i].os < rs[k][1] /\ rs[k][1] < rs[k][2] /\ rs[k][2] < elems[i].oe
+                                    /\ (k > 1 => rs[k] # rs[k - 1])
+\* next / previous walk the same sequence of tags in opposite directions
+NextPrevInv == \A i \in 1..Len(elems) : /\ NextTag(elems[i].oe) = (IF i < Len(elems) THEN i + 1 ELSE 0)
+                                         /\ PrevTag(elems[i].os) = i - 1
+                                         /\ PrevTag(elems[i].oe) = i /\ NextTag(elems[i].os) = i
+DumpActions == Complete => PrintT(<<"VEC", ToJson([doc |-> doc, elems |-> elems, sel |-> [i \in 1..Len(elems) |-> SelRanges(i)],
+          at |-> [p \in 1..(Len(doc) + 1) |-> [t |-> OpenTagAt(p - 1), c |-> InClosingTag(p - 1), n |-> NextTag(p - 1), p |-> PrevTag(p - 1)]]])>>)
 
 Dump == Complete => PrintT(<<"VEC", ToJson([doc |-> doc, xml |-> xml, elems |-> elems, evs |-> evs,
                                              at |-> [p \in 1..(Len(doc) + 1) |-> [m |-> CMatch(p - 1), o |-> COutward(p - 1), i |-> CInward(p - 1)]]])>>)
